@@ -2663,6 +2663,12 @@ bool BW_MidiSequencer::parseCMF(FileAndMemReader &fr)
     uint64_t mus_start = readLEint(headerBuf + 8, 2);
     //unsigned deltas    = ReadLEint(HeaderBuf+10, 2);
     uint64_t ticks     = readLEint(headerBuf + 12, 2);
+    if(ticks == 0)
+    {
+        fr.close();
+        m_errorString = fr.fileName() + ": Invalid format, the CTMF tick rate is zero!\n";
+        return false;
+    }
     // Read title, author, remarks start offsets in file
     fsize = fr.read(headerBuf, 1, 6);
     if(fsize < 6)
